@@ -1251,5 +1251,197 @@ theorem retain_eq (m : Matrix α) (h : m.Inv) (a b : Slice) :
   obtain ⟨r, p⟩ := res
   cases p <;> rfl
 
+/-! ## 8. every operation, completely -/
+
+theorem rect_map_insertIdx {c : Nat} (rs : Rows α) (h : Rect c rs) (column : Nat)
+    (hcol : column ≤ c) (v : α) : Rect (c + 1) (rs.map (·.insertIdx column v)) := by
+  intro r hr
+  simp only [List.mem_map] at hr
+  obtain ⟨x, hx, rfl⟩ := hr
+  rw [List.length_insertIdx_of_le_length (by rw [h x hx]; exact hcol), h x hx]
+
+theorem rect_eraseIdx {c : Nat} (rs : Rows α) (h : Rect c rs) (row : Nat) :
+    Rect c (rs.eraseIdx row) :=
+  fun r hr => h r (List.mem_of_mem_eraseIdx hr)
+
+theorem rect_map_eraseIdx {c : Nat} (rs : Rows α) (h : Rect c rs) (column : Nat)
+    (hcol : column < c) : Rect (c - 1) (rs.map (·.eraseIdx column)) := by
+  intro r hr
+  simp only [List.mem_map] at hr
+  obtain ⟨x, hx, rfl⟩ := hr
+  rw [List.length_eraseIdx_of_lt (by rw [h x hx]; exact hcol), h x hx]
+
+/-- The complete behaviour of every operation on the stored form of a rectangular, non-empty
+    list of rows: when the documented precondition holds there is no panic, the invariant is
+    kept and the rows are those of the list-of-rows model; otherwise the operation panics
+    (explicitly, i.e. by one of the library's own asserts) and the matrix is untouched. -/
+theorem exec_spec_ofRows {c : Nat} (rs : Rows α) (hrect : Rect c rs) (hn : 1 ≤ rs.length)
+    (hc : 1 ≤ c) (op : Op α) :
+    (Rows.pre rs op = true →
+      ((ofRows rs c).exec op).panic = none ∧ ((ofRows rs c).exec op).state.Inv ∧
+      ((ofRows rs c).exec op).state.toRows = Rows.apply rs op) ∧
+    (Rows.pre rs op = false →
+      ((ofRows rs c).exec op).panic = some .explicit ∧
+      ((ofRows rs c).exec op).state = ofRows rs c) := by
+  have hcols : Rows.ncols rs = c := ncols_of_rect hrect hn
+  have hinv : (ofRows rs c).Inv := inv_ofRows hrect hn hc
+  have htr : (ofRows rs c).toRows = rs := toRows_ofRows rs hrect
+  cases op with
+  | insertRow row v =>
+    simp only [exec, Rows.apply, hcols, insertRow_ofRows rs hrect]
+    constructor
+    · intro hp
+      simp [Rows.pre, Rows.nrows] at hp
+      rw [if_pos hp]
+      have := ofRows_result (rs.insertIdx row (List.replicate c v))
+        (rect_insertIdx rs hrect row _ (by simp))
+        (by rw [List.length_insertIdx_of_le_length hp]; omega) hc
+      exact ⟨rfl, this.1, this.2⟩
+    · intro hp
+      simp [Rows.pre, Rows.nrows] at hp
+      rw [if_neg (by omega)]
+      exact ⟨rfl, rfl⟩
+  | insertRowWith row values =>
+    simp only [exec, Rows.apply, hcols, insertRowWith_ofRows rs hrect]
+    constructor
+    · intro hp
+      simp [Rows.pre, Rows.nrows, hcols] at hp
+      rw [if_pos hp]
+      have hl : (values.take c).length = c := by simp; omega
+      have := ofRows_result (rs.insertIdx row (values.take c))
+        (rect_insertIdx rs hrect row _ hl)
+        (by rw [List.length_insertIdx_of_le_length hp.1]; omega) hc
+      exact ⟨rfl, this.1, this.2⟩
+    · intro hp
+      simp [Rows.pre, Rows.nrows, hcols] at hp
+      rw [if_neg (by omega)]
+      exact ⟨rfl, rfl⟩
+  | insertColumn column v =>
+    simp only [exec, Rows.apply, insertColumn_ofRows rs hrect]
+    constructor
+    · intro hp
+      simp [Rows.pre, hcols] at hp
+      rw [if_pos hp]
+      have := ofRows_result (rs.map (·.insertIdx column v))
+        (rect_map_insertIdx rs hrect column hp v) (by simpa using hn) (by omega)
+      exact ⟨rfl, this.1, this.2⟩
+    · intro hp
+      simp [Rows.pre, hcols] at hp
+      rw [if_neg (by omega)]
+      exact ⟨rfl, rfl⟩
+  | insertColumnWith column values =>
+    simp only [exec, Rows.apply, insertColumnWith_ofRows rs hrect]
+    constructor
+    · intro hp
+      simp [Rows.pre, Rows.nrows, hcols] at hp
+      rw [if_pos hp]
+      have := ofRows_result (List.zipWith (fun r v => r.insertIdx column v) rs values)
+        (rect_zipWith_insertIdx rs hrect column hp.1 values)
+        (by simp; omega) (by omega)
+      exact ⟨rfl, this.1, this.2⟩
+    · intro hp
+      simp [Rows.pre, Rows.nrows, hcols] at hp
+      rw [if_neg (by omega)]
+      exact ⟨rfl, rfl⟩
+  | removeRow row =>
+    simp only [exec, Rows.apply, removeRow_ofRows rs hrect hc]
+    constructor
+    · intro hp
+      simp [Rows.pre, Rows.nrows] at hp
+      rw [if_pos hp]
+      have := ofRows_result (rs.eraseIdx row) (rect_eraseIdx rs hrect row)
+        (by rw [List.length_eraseIdx_of_lt hp.2]; omega) hc
+      exact ⟨rfl, this.1, this.2⟩
+    · intro hp
+      simp [Rows.pre, Rows.nrows] at hp
+      rw [if_neg (by omega)]
+      exact ⟨rfl, rfl⟩
+  | removeColumn column =>
+    simp only [exec, Rows.apply, removeColumn_ofRows rs hrect hc]
+    constructor
+    · intro hp
+      simp [Rows.pre, hcols] at hp
+      rw [if_pos hp]
+      have := ofRows_result (rs.map (·.eraseIdx column)) (rect_map_eraseIdx rs hrect column hp.2)
+        (by simpa using hn) (by omega)
+      exact ⟨rfl, this.1, this.2⟩
+    · intro hp
+      simp [Rows.pre, hcols] at hp
+      rw [if_neg (by omega)]
+      exact ⟨rfl, rfl⟩
+  | retainMut a b =>
+    simp only [exec, Rows.pre, Rows.apply, Rows.nrows, hcols, retainMut_ofRows rs hrect hc]
+    constructor
+    · intro hp
+      rw [if_pos hp]
+      simp only [Bool.and_eq_true] at hp
+      have := ofRows_result ((filterIdx a.accepts rs).map (filterIdx b.accepts))
+        (rect_retain rs hrect a b)
+        (by rw [List.length_map, length_filterIdx]; exact (anyAccepted_iff a _).mp hp.1)
+        ((anyAccepted_iff b c).mp hp.2)
+      exact ⟨rfl, this.1, this.2⟩
+    · intro hp
+      rw [if_neg (by rw [hp]; simp)]
+      exact ⟨rfl, rfl⟩
+  | retain a b =>
+    simp only [exec, Rows.pre, Rows.apply, Rows.nrows, hcols, retain_eq _ hinv,
+      retainMut_ofRows rs hrect hc]
+    constructor
+    · intro hp
+      rw [if_pos hp]
+      simp only [Bool.and_eq_true] at hp
+      have := ofRows_result ((filterIdx a.accepts rs).map (filterIdx b.accepts))
+        (rect_retain rs hrect a b)
+        (by rw [List.length_map, length_filterIdx]; exact (anyAccepted_iff a _).mp hp.1)
+        ((anyAccepted_iff b c).mp hp.2)
+      exact ⟨rfl, this.1, this.2⟩
+    · intro hp
+      rw [if_neg (by rw [hp]; simp)]
+      exact ⟨rfl, rfl⟩
+  | transpose =>
+    have := transpose_spec (ofRows rs c) hinv
+    rw [htr] at this
+    simp only [exec, Rows.pre, Rows.apply]
+    exact ⟨fun _ => this, fun hp => by simp at hp⟩
+  | transposeMut =>
+    have := transposeMut_spec (ofRows rs c) hinv
+    rw [htr] at this
+    simp only [exec, Rows.pre, Rows.apply]
+    exact ⟨fun _ => this, fun hp => by simp at hp⟩
+  | set row column v =>
+    simp only [exec, Rows.apply, set_ofRows rs hrect]
+    constructor
+    · intro hp
+      simp [Rows.pre, Rows.nrows, hcols] at hp
+      rw [if_pos hp]
+      have := ofRows_result (rs.modify row (·.set column v)) (rect_modify_set rs hrect row column v)
+        (by simpa using hn) hc
+      exact ⟨rfl, this.1, this.2⟩
+    · intro hp
+      simp [Rows.pre, Rows.nrows, hcols] at hp
+      rw [if_neg (by omega)]
+      exact ⟨rfl, rfl⟩
+  | mapMut f =>
+    simp only [exec, Rows.pre, Rows.apply, mapMut_ofRows]
+    have := ofRows_result (rs.map (·.map f)) (rect_map_map rs hrect f) (by simpa using hn) hc
+    exact ⟨fun _ => ⟨trivial, this.1, this.2⟩, fun hp => by simp at hp⟩
+  | mapMutWithIndex f =>
+    have := mapMutWithIndex_spec (ofRows rs c) hinv f
+    rw [htr] at this
+    simp only [exec, Rows.pre, Rows.apply]
+    exact ⟨fun _ => this, fun hp => by simp at hp⟩
+
+/-- `exec_spec_ofRows` for an arbitrary matrix satisfying the invariant -/
+theorem exec_spec (m : Matrix α) (h : m.Inv) (op : Op α) :
+    (Rows.pre m.toRows op = true →
+      (m.exec op).panic = none ∧ (m.exec op).state.Inv ∧
+      (m.exec op).state.toRows = Rows.apply m.toRows op) ∧
+    (Rows.pre m.toRows op = false →
+      (m.exec op).panic = some .explicit ∧ (m.exec op).state = m) := by
+  have e := eq_ofRows_toRows m h
+  have := exec_spec_ofRows m.toRows (rect_toRows m h) (by rw [length_toRows]; exact h.2.1) h.2.2 op
+  rw [← e] at this
+  exact this
+
 end Matrix
 end EasyMl
